@@ -158,6 +158,10 @@ pub struct Plan {
     /// a process that dies in the middle of an invocation (`die_at`) is restarted at once by the OS under a new pid
     #[serde(default)]
     pub respawn: bool,
+    /// the nodes run in another PID namespace than the manager (a container): the pid a node reports about itself
+    /// over RPC is not the pid the host's process table has for it
+    #[serde(default)]
+    pub pid_namespace: bool,
     pub steps: Vec<Step>,
 }
 
@@ -243,8 +247,8 @@ fn gen_add(rng: &mut Rng, rich: bool, swarm: &Swarm) -> AddOpts {
     o.upnp = p(rng, 1, 4);
     let q = if rich { 2 } else { 4 };
     o.log_format = if p(rng, 1, q) { Some(rng.below(2) as u8) } else { None };
-    o.max_archived_log_files = if p(rng, 1, q) { Some(rng.range(1, 9) as u32) } else { None };
-    o.max_log_files = if p(rng, 1, q) { Some(rng.range(1, 9) as u32) } else { None };
+    o.max_archived_log_files = if p(rng, 1, q) { Some(rng.range(0, 9) as u32) } else { None };
+    o.max_log_files = if p(rng, 1, q) { Some(rng.range(0, 9) as u32) } else { None };
     if swarm.ports {
         if p(rng, 1, 3) {
             o.metrics_port = Some(gen_port(rng, 13000, count, rich));
@@ -441,6 +445,7 @@ fn gen_c19(rng: &mut Rng, ctx: &GenCtx) -> Plan {
         enumerate,
         pid_lookup_faults,
         respawn: fault && rng.chance(1, 3),
+        pid_namespace: rng.chance(1, 5),
         steps,
     }
 }
@@ -543,6 +548,7 @@ fn gen_c20(rng: &mut Rng, ctx: &GenCtx) -> Plan {
         enumerate: None,
         pid_lookup_faults: faulty && rng.chance(1, 4),
         respawn: false,
+        pid_namespace: false,
         steps,
     }
 }
